@@ -24,6 +24,7 @@ import (
 	"github.com/Masterminds/semver"
 	"github.com/nyaruka/gocommon/uuids"
 	"github.com/nyaruka/goflow/excellent/refactor"
+	"github.com/nyaruka/goflow/flows/definition"
 	"github.com/nyaruka/goflow/flows/definition/migrations"
 
 	"verifharness/pkg/hx"
@@ -211,7 +212,6 @@ func (d *driver) runValid(stream string, gd *gdef, r *hx.Rand, seed int64, emit 
 	if err != nil {
 		panic(err)
 	}
-	latest := srcVersions[len(srcVersions)-1]
 	meta := map[string]any{"version": gd.Version, "hazards": gd.Hazards}
 	fail := func(class, detail string) {
 		res.Fail(class, failInput(stream, x, meta), detail)
@@ -262,15 +262,15 @@ func (d *driver) runValid(stream string, gd *gdef, r *hx.Rand, seed int64, emit 
 		checkTemplatePositions(res, x, fail)
 	}
 
-	// stepwise through a random ascending chain of target versions ending at the current one
+	// stepwise through a random ascending chain of registered target versions, the last hop being MigrateToLatest
 	if gd.VIdx < len(srcVersions)-1 {
 		var chain []string
-		for i := gd.VIdx + 1; i < len(srcVersions)-1; i++ {
+		for _, v := range registeredAbove(gd.Version) {
 			if r.Bool() {
-				chain = append(chain, srcVersions[i])
+				chain = append(chain, v)
 			}
 		}
-		chain = append(chain, latest)
+		chain = append(chain, "") // "" = latest
 		cur := x
 		okStep := true
 		pan := guard(func() {
@@ -289,7 +289,7 @@ func (d *driver) runValid(stream string, gd *gdef, r *hx.Rand, seed int64, emit 
 					}
 					if emit {
 						var rd *bool
-						if w == latest {
+						if w == "" {
 							b := readsOK(next)
 							rd = &b
 						}
@@ -304,7 +304,8 @@ func (d *driver) runValid(stream string, gd *gdef, r *hx.Rand, seed int64, emit 
 			fail("panic:"+pan, "panic while migrating a valid definition stepwise")
 		} else if okStep {
 			var ch bool
-			checkMigrated(res, stream, "", x, cur, gd, func(c, dt string) { fail(c, "(stepwise via "+strings.Join(chain, ",")+") "+dt) }, &ch)
+			via := strings.Join(chain[:len(chain)-1], ",")
+			checkMigrated(res, stream, "", x, cur, gd, func(c, dt string) { fail(c, "(stepwise via "+via+", then latest) "+dt) }, &ch)
 			res.Dist(fmt.Sprintf("stepwise_hops=%d", len(chain)))
 		}
 	}
@@ -396,7 +397,7 @@ func main() {
 	rc := r.Fork("current")
 	for i := 0; i < tierCount(o, 40, 1000); i++ {
 		ri := rc.Fork(fmt.Sprint(i))
-		gd := genDef(ri, 6)
+		gd := asCurrent(genDef(ri, 6))
 		d.runCurrent(gd, int64(i))
 	}
 	d.flushMig()
@@ -526,6 +527,37 @@ func tierCount(o *hx.Opts, quick, thorough int) int {
 		return quick * 10
 	}
 	return quick
+}
+
+// registeredAbove: the registered migration versions newer than v, ascending
+func registeredAbove(v string) []string {
+	from, err := semver.NewVersion(v)
+	if err != nil {
+		return nil
+	}
+	var vs []*semver.Version
+	for r := range migrations.Registered() {
+		if r.GreaterThan(from) {
+			vs = append(vs, r)
+		}
+	}
+	sort.Slice(vs, func(i, j int) bool { return vs[i].LessThan(vs[j]) })
+	out := make([]string, len(vs))
+	for i, r := range vs {
+		out[i] = r.String()
+	}
+	return out
+}
+
+// asCurrent: the generator's newest format, stamped with the version the library calls current (they are the same
+// unless a migration has been registered that the generator does not know yet)
+func asCurrent(gd *gdef) *gdef {
+	cur := definition.CurrentSpecVersion
+	if !cur.Equal(semver.MustParse(srcVersions[len(srcVersions)-1])) {
+		gd.Version = cur.String()
+		gd.Flow["spec_version"] = gd.Version
+	}
+	return gd
 }
 
 func vidxOf(v string) int {
